@@ -692,6 +692,7 @@ fn allowed_features() -> gen::problem::Features {
     let mut allowed = gen::problem::Features::all();
     allowed.req_breaks = false;
     allowed.recharges = true;
+    allowed.long_tour_focus = true;
     allowed
 }
 
